@@ -299,6 +299,19 @@ theorem insertion_keeps_hashcons_functional {s s' : Snap} {n syn : Node} {f2o : 
     (s'.classes.flatMap fun c => c.nodes.map (·.1)).Nodup :=
   Snap.add_keeps_shapes_unique hok hu h
 
+/-- **a modelled insertion disturbs no class from before**: every class of the state before is a class of the state after and satisfies
+there every per-class conjunct of `checkInv` it satisfied before (sorted slots, leader entry, generators, node entries, canonical
+children).  With `insertion_keeps_union_find_consistent` and `insertion_keeps_hashcons_functional` what remains per run of `checkInv`
+after an insertion is the new class's node entry and children. -/
+theorem insertion_disturbs_no_old_class {s s' : Snap} {n syn : Node} {f2o : SlotMap} {data : String} {a : AppId}
+    (hok : Snap.AddOK s) (h : Snap.addNew s n f2o syn data = some (s', a)) {c : SClass} (hc : c ∈ s.classes)
+    (hinv : (Snap.sortedStrict c.slots && Snap.leaderOK s c && Snap.gensOK c && c.nodes.all (Snap.nodeOK c) &&
+      Snap.childrenOK s c) = true) :
+    c ∈ s'.classes ∧
+    (Snap.sortedStrict c.slots && Snap.leaderOK s' c && Snap.gensOK c && c.nodes.all (Snap.nodeOK c) &&
+      Snap.childrenOK s' c) = true :=
+  Snap.add_keeps_old_class_inv hok h hc hinv
+
 /-- non-vacuity: on the empty e-graph the node `f2($8, $12)` (variant 7, two slot fields) is a miss; with the fresh slots
 `101, 105` handed in, the model allocates class 0 -/
 example : ((Snap.addNew { uf := [], classes := [] } { v := 7, fields := [.slot 8, .slot 12] } [(101, 8), (105, 12)]
